@@ -862,6 +862,30 @@ pub fn run_c12_case(n: usize, cap: usize, g_ops: &[Op], h: &[Op], left: usize, r
                             return (Some(format!("merge returned Err but does not name the missed vertex ν{v}: {e}")), nontrivial);
                         }
                     }
+                    // ... and names as missed only vertices it missed: a vertex that can be reached from `right` was
+                    // mapped. (Read from the part of the text after the last "missed", which is where the list stands;
+                    // a text without that word is not examined for this.)
+                    if let Some((_, tail)) = e.rsplit_once("missed") {
+                        let listed: BTreeSet<usize> = tail
+                            .split('ν')
+                            .skip(1)
+                            .filter_map(|x| {
+                                let d: String = x.chars().take_while(char::is_ascii_digit).collect();
+                                d.parse().ok()
+                            })
+                            .collect();
+                        c.inc("c12.err-lists-examined-for-vertices-that-were-not-missed");
+                        for v in &listed {
+                            if reach.contains(v) {
+                                return (
+                                    Some(format!(
+                                        "merge returned Err and lists ν{v} as missed, although ν{v} can be reached from ν{right} and was mapped: {e}"
+                                    )),
+                                    nontrivial,
+                                );
+                            }
+                        }
+                    }
                     (None, nontrivial)
                 }
             }
